@@ -17,11 +17,12 @@ pub mod c09;
 pub mod c10;
 pub mod c11;
 pub mod c12;
+pub mod c15;
 pub mod c16;
 pub mod c17;
 
 pub fn all() -> Vec<Box<dyn crate::explore::Prop>> {
-    vec![Box::new(c01::C01), Box::new(c02::C02), Box::new(c03::C03), Box::new(c04::C04), Box::new(c07::C07), Box::new(c08::C08), Box::new(c09::C09), Box::new(c10::C10), Box::new(c11::C11), Box::new(c12::C12), Box::new(c16::C16), Box::new(c17::C17)]
+    vec![Box::new(c01::C01), Box::new(c02::C02), Box::new(c03::C03), Box::new(c04::C04), Box::new(c07::C07), Box::new(c08::C08), Box::new(c09::C09), Box::new(c10::C10), Box::new(c11::C11), Box::new(c12::C12), Box::new(c15::C15), Box::new(c16::C16), Box::new(c17::C17)]
 }
 
 #[derive(Debug, Clone, Copy, PartialEq, Eq)]
